@@ -974,6 +974,24 @@ pub fn gen_c16(thorough: bool, seed: u64) -> Vec<Episode> {
             json!({"op": "t_text", "a": 2, "n": n}),
         ]));
     }
+    // a print that fails half-way (a bounded sink) followed by prints of OTHER forms on the same thread
+    for round in 0..(if thorough { 24 } else { 8 }) {
+        let n = 4 + round % 6;
+        let a: Vec<(usize, usize)> = (0..2 + round % 3).map(|_| random_cube(&mut r, n, 3)).collect();
+        let b: Vec<(usize, usize)> = (0..1 + round % 4).map(|_| random_cube(&mut r, n, 3)).collect();
+        let el: Vec<Value> = (0..2).map(|_| ecube_json(r.gen_range(1..dom(n)), r.gen())).collect();
+        let kinds = ["sop", "esop"];
+        let mut ops = vec![
+            sop_mk(0, n, &a, kinds[round % 2]),
+            sop_mk(1, n, &b, kinds[(round + 1) % 2]),
+            json!({"op": "t_mk", "k": "soes", "c": "from_cubes", "d": 2, "n": n, "cubes": el}),
+        ];
+        for (fail, then) in [(0usize, 1usize), (1, 2), (2, 0), (0, 0)] {
+            ops.push(json!({"op": "t_text_fail", "a": fail, "limit": 1 + (round + fail) % 5}));
+            ops.push(json!({"op": "t_text", "a": then, "n": n}));
+        }
+        eps.push(ep(n, ops));
+    }
     eps
 }
 
